@@ -609,6 +609,8 @@ class Evaluator:
         if h == "comp" and t[1] in ("set", "list", "gen") and len(t[3]) == 1 and t[2] == t[3][0][0] and t[2][0] == "var":
             # a filter: {x for x in S if ...}
             return self.elem_type(t[3][0][1], depth + 1)
+        if h == "call" and t[1] in ("sorted", "list", "tuple", "set", "frozenset", "reversed", "iter") and len(t[2]) == 1 and is_term(t[2][0]):
+            return self.elem_type(t[2][0], depth + 1)  # the same elements, rearranged
         if h in ("attr", "call", "meth"):
             typ = self.typeof(t) if h == "attr" else None
             if isinstance(typ, tuple) and typ and typ[0] in ("set", "frozenset", "list", "iter", "tuple") and len(typ) > 1:
